@@ -529,6 +529,24 @@ package server
 //@   atcall Write requires nonceThenSealedKey: len(arg0.([]byte)) == 12 + len(encryptedKey) && (forall k int :: 0 <= k && k < 12 ==> arg0.([]byte)[k] == nonce[k]) && (forall k int :: 0 <= k && k < len(encryptedKey) ==> arg0.([]byte)[12 + k] == encryptedKey[k])
 //@   flag noframe
 
+// what net/http is given to serve the upgrade from: a listener that yields exactly one connection, whose
+// first Read hands back, byte for byte, the request packet dispatchConnection had already consumed, and
+// whose later Reads go to the peer's connection (net/http's read buffer, 4096, exceeds the 1500-byte first packet)
+//@ func newWsAcceptor
+//@   ensures fresh: ret0 != nil && ret0.c != nil && !ret0.done && !ret0.c.firstRead && ret0.c.Conn == conn
+//@   ensures copyOfFirst: len(ret0.c.firstPacket) == len(first) && (forall i int :: 0 <= i && i < len(first) ==> ret0.c.firstPacket[i] == first[i])
+//@ func (*wsOnceListener).Accept
+//@   requires w != nil
+//@   ensures once: old(w.done) ==> ret0 == nil && ret1 != nil
+//@   ensures theBufferedConn: !old(w.done) ==> ret1 == nil && typeIs[*firstBuffedConn](ret0) && ret0.(*firstBuffedConn) == w.c && w.done
+//@   modifies w.done
+//@ func (*firstBuffedConn).Read
+//@   requires c != nil && len(buf) >= len(c.firstPacket)
+//@   ensures firstIsThePacket: !old(c.firstRead) ==> ret1 == nil && ret0 == old(len(c.firstPacket)) && (forall i int :: 0 <= i && i < ret0 ==> buf[i] == old(c.firstPacket[i]))
+//@   ensures onlyOnce: !old(c.firstRead) ==> c.firstRead && len(c.firstPacket) == 0
+//@   # a later Read is the peer's connection's Read (an interface call: anything may change)
+//@   modifies *
+
 // ---------------------------------------------------------------------------------------------
 // C06: agreement of the two ends of the handshake. sealedBy(...) is, term for term, the postcondition
 // that package client proves for makeAuthenticationPayload (client:makeAuthenticationPayload#post.*,
